@@ -335,42 +335,6 @@ theorem gridLines_rows (g : GridIn) (h : g.Compat) :
 
 /-! ### reading GRID cards back -/
 
-def FieldOK (w : Nat) (f : Txt) : Prop := f.length = w ∧ '$' ∉ f ∧ ',' ∉ f
-
-/-- what the theorems ask of a formatted coordinate: exactly `w` columns, no `$`, no comma, not
-ending in white space (`form.format(x)` with an 8- or 16-wide numeric format) -/
-def CleanField (w : Nat) (f : Txt) : Prop := FieldOK w f ∧ LastSolid f
-
-theorem fieldOK_padL_dec (w : Nat) (n : Int) (h : (dec n).length ≤ w) : FieldOK w (padL w (dec n)) :=
-  ⟨padL_length h, notin_padL_dec '$' (by decide) (by decide) (by decide) w n,
-    notin_padL_dec ',' (by decide) (by decide) (by decide) w n⟩
-
-theorem fieldOK_blanks (w : Nat) : FieldOK w (blanks w) :=
-  ⟨blanks_length w, fun h => absurd (mem_blanks h) (by decide), fun h => absurd (mem_blanks h) (by decide)⟩
-
-theorem FixedLine.build (w : Nat) (lead : Txt) (S' : List Txt) (last : Txt) (k : Nat) (h8 : lead.length = 8)
-    (hd : '$' ∉ lead) (hc : ',' ∉ lead) (hf : ∀ f ∈ S' ++ [last], FieldOK w f) (hne : last ≠ [])
-    (hl : LastSolid last) (h72 : 8 + w * (S'.length + 1) + k ≤ 72) : FixedLine w lead (S' ++ [last]) k where
-  lead8 := h8
-  width := fun f hf' => (hf f hf').1
-  nodollar := by
-    intro h
-    rcases List.mem_append.mp h with h | h
-    · exact hd h
-    · obtain ⟨f, hf', hm⟩ := List.mem_flatten.mp h
-      exact (hf f hf').2.1 hm
-  nocomma := by
-    intro h
-    rcases List.mem_append.mp h with h | h
-    · exact hc h
-    · obtain ⟨f, hf', hm⟩ := List.mem_flatten.mp h
-      exact (hf f hf').2.2 hm
-  solid := by
-    have : lead ++ (S' ++ [last]).flatten = (lead ++ S'.flatten) ++ last := by simp
-    rw [this]
-    exact lastSolid_append hne hl
-  len72 := by simpa using h72
-
 def GRow.Clean (w : Nat) (r : GRow) : Prop :=
   CleanField w r.x ∧ CleanField w r.y ∧ CleanField w r.z ∧ (dec r.id).length ≤ w ∧ (dec r.cp).length ≤ w ∧
   (dec r.cd).length ≤ w ∧ (∀ p, r.ps = some p → (dec p).length ≤ w) ∧ (∀ s, r.seid = some s → (dec s).length ≤ w)
